@@ -186,7 +186,12 @@ def audit(prop: str, modules=None):
     names = theorem_names(prop, modules)
     src = ''.join(f'import SdcModel.Properties.{m}\n' for m in (modules or [prop])) + f'open Sdc.{prop}\n' \
         + ''.join(f'#print axioms {n}\n' for n in names)
-    r = subprocess.run(['lake', 'env', 'lean', '--stdin'], cwd=LEAN, input=src.encode(), capture_output=True, timeout=900)
+    with open(os.path.join(LEAN, '.lake', 'verif.lock'), 'w') as lk:     # no build may rewrite .olean files meanwhile
+        fcntl.flock(lk, fcntl.LOCK_EX)
+        try:
+            r = subprocess.run(['lake', 'env', 'lean', '--stdin'], cwd=LEAN, input=src.encode(), capture_output=True, timeout=900)
+        finally:
+            fcntl.flock(lk, fcntl.LOCK_UN)
     out = r.stdout.decode() + r.stderr.decode()
     res = {n: None for n in names}
     for m in re.finditer(r"'([^']+)' depends on axioms: \[([^\]]*)\]", out, re.S):
